@@ -15,6 +15,10 @@ CLAIMED = {
          "Only hello replies reach the locator endpoint; two spas never share an identifier."),
  "C17": ("exploration", "3.C17", "Seeded search over sleeper/switch schedules in virtual time (1-20 concurrent config_sleep callers, 0-12 switches, same-instant cases, drawn tables and callback costs/stalls) with a monitor on the live config after every callback; 1 in 5 runs is the full client with the model spa flipping pump/blower bytes, sampling 'active iff some pump or blower is on' after every callback.",
          "A shared change future exists before the first switch; 'at once' = all time between switch and wake is injected callback cost (+2 ms); only upper bounds on sleep are checked."),
+ "C08": ("exploration", "3.C08", "Seeded search over full-system histories: the real manager driven by its own pump through fault phases (loss, blackout, one-way, RF-error, reboot), user resets / set-spa-info (timed or triggered by a chosen event), runtime events injected from other tasks while the client handler is suspended; every delivery and every callback-boundary state sample is walked against a reference lifecycle table (legal transitions, ready/teardown bracketing, phase brackets, reset postcondition, sensor text). Closure of the reachable abstract-state set is measured (saturation), not proved.",
+         "Observation through the public handle_event/state/facade/sensor properties (plus guarded reads of _spa); a delivery chain cut because the client's own handler was cancelled owes nothing further; known findings f/j listed in known_findings.json."),
+ "C09": ("exploration", "3.C09", "Seeded search over fault scripts (healthy/lossy/blackout/one-way/RF-error/reboot phases, resets and set-spa-info at drawn or event-triggered instants, drawn tables, stalls, handler suspension) followed by a heal; bounded-liveness oracle: CONNECTED with a mirroring facade within a bound derived from the run's tables, total blackouts reported within the detection bound, the sequence-pump task alive at every sample.",
+         "Bounds are deliberate over-approximations from the tables; no obligation while faults flow; known findings b/c listed in known_findings.json."),
 }
 PENDING = {}
 NA = {
